@@ -1,0 +1,16 @@
+//go:build verif
+
+package tmi
+
+import (
+	"github.com/gordian-engine/gordian/gcrypto"
+	"github.com/gordian-engine/gordian/tm/tmconsensus"
+)
+
+// VerifNewVoteDistribution exposes newVoteDistribution to the verification harness.
+func VerifNewVoteDistribution(
+	proofs map[string]gcrypto.CommonMessageSignatureProof, vals []tmconsensus.Validator,
+) (available, present uint64, blockPower map[string]uint64) {
+	d := newVoteDistribution(proofs, vals)
+	return d.AvailableVotePower, d.VotePowerPresent, d.BlockVotePower
+}
